@@ -122,6 +122,28 @@ Section Batch.
 End Batch.
 Arguments MOk {T}. Arguments MErr {T}. Arguments MFuelQ {T}.
 
+(* the batch loop as the code runs it: ONE parser (and one tokenizer) serves every member of the list, so whatever
+   state a member leaves behind (nesting-depth counter, buffers) is what the next member starts from *)
+Section BatchSt.
+  Variables Q T St : Type.
+  Variable one_st : St -> Q -> pres T * St.          (* a single call on a parser in state s: result and state left behind *)
+  Fixpoint multi_st (s : St) (i : nat) (qs : list Q) (acc : list (list T)) : mres T :=
+    match qs with
+    | [] => MOk acc
+    | q :: r => match one_st s q with
+                | (POk ts, s') => multi_st s' (S i) r (acc ++ [ts])
+                | (PErr c, _) => MErr i c
+                | (PFuel, _) => MFuelQ i
+                end
+    end.
+End BatchSt.
+
+(* concrete instance: the state is the nesting-depth counter.  A query needs [fst q] levels and leaves [snd q] levels
+   behind (0 for balanced bookkeeping); it is rejected with the depth error when counter + need exceeds the limit *)
+Definition E_DEPTH : N := 2007%N.
+Definition depth_one (limit : nat) (d : nat) (q : nat * nat) : pres nat * nat :=
+  if d + fst q <=? limit then (POk [fst q], d + snd q) else (PErr E_DEPTH, d + snd q).
+
 (* ---- concrete instance used by the correspondence cases: classes and ps given as tables ---- *)
 Definition kind_at (kinds : list nat) (p : nat) : nat := nth p kinds 0.   (* 1 eof, 2 semicolon, 3 statement keyword *)
 Definition tbl_ps (tbl : list (sres nat)) (p : nat) : sres nat := nth p tbl (SErr 0%N p).
